@@ -135,7 +135,8 @@ func (rv *respValue) serializePairs(sb *strings.Builder, data respPairs) {
 
 func (rv *respValue) serializeAttributeMap(sb *strings.Builder, data respAttributeMap) {
 	sb.WriteString(fmt.Sprintf("|%d\r\n", len(data)))
-	for k, v := range data {
+	for _, k := range simKeys(data, simRespLess) {
+		v := data[k]
 		k.serializeValue(sb)
 		v.serializeValue(sb)
 	}
@@ -143,7 +144,7 @@ func (rv *respValue) serializeAttributeMap(sb *strings.Builder, data respAttribu
 
 func (rv *respValue) serializeSet(sb *strings.Builder, data respSet) {
 	sb.WriteString(fmt.Sprintf("~%d\r\n", len(data)))
-	for v := range data {
+	for _, v := range simKeys(data, simRespLess) {
 		v.serializeValue(sb)
 	}
 }
